@@ -459,6 +459,71 @@ def suite_fault(binf, tier, rng):
                     out["dist"]["tmp_left_after_failed_call(info)"] = out["dist"].get("tmp_left_after_failed_call(info)", 0) + 1
     return out
 
+def suite_fsize(binf, tier, rng):
+    """C13 with genuine short writes: the process's file-size limit is lowered in the middle of a streamed write, so one
+    write(2) into the temp file is short and the next fails (EFBIG); the caller drives the stream with single write()
+    calls, retries the failed call after the limit is lifted, commits.  If commit reports success the key reads back
+    exactly the bytes that were acknowledged; every content file hashes to its path."""
+    import tempfile, shutil
+    out = {"runs": 0, "skipped": 0, "failures": [], "dist": {}}
+    fls = ["sync"] if binf == "sync" else ["sync", "async"]
+    CH = 65536
+    for fl in fls:
+        for limit, total, keyed in ((100 * 1024, 200 * 1024, True), (70000, 3 * CH + 17, False), (CH + 1, 2 * CH, True)) if tier != "quick" else ((100 * 1024, 200 * 1024, True), (70000, 3 * CH + 17, False)):
+            data = bytes((i * 13 + 7) % 251 for i in range(total))
+            base = tempfile.mkdtemp(prefix="fz", dir=T.SCRATCH if os.path.isdir(T.SCRATCH) else None)
+            name = f"{fl} streamed {'keyed' if keyed else 'by address'} {total} bytes in {CH}-byte write() calls, file size limit {limit} during the stream"
+            rep = {"flavour": binf, "scenario": name}
+            try:
+                c, e = os.path.join(base, "c"), os.path.join(base, "e")
+                os.makedirs(c); os.makedirs(e)
+                K = kx("fsz")
+                ip = ImplProc(binf, c, e)
+                op = {"op": "open", "fl": fl, "w": 1, "algo": "sha256"}
+                if keyed: op["key"] = K
+                r = ip.op(op)
+                pos, acked, errs, limited = 0, b"", 0, False
+                ok = r.get("r") == "ok"
+                steps = 0
+                while ok and pos < total and steps < 200:
+                    steps += 1
+                    if not limited and pos >= CH:
+                        ip.op({"op": "rlimit_fsize", "n": limit}); limited = True
+                    chunk = data[pos:pos + CH]
+                    r = ip.op({"op": "wchunk", "w": 1, "data": chunk.hex(), "mode": "write"})
+                    if r.get("r") == "ok":
+                        n = r.get("v") or 0
+                        if n == 0 and chunk:
+                            errs += 1
+                            if errs > 3: break
+                            continue
+                        acked += chunk[:n]; pos += n
+                    elif r.get("r") == "err":
+                        errs += 1
+                        ip.op({"op": "rlimit_fsize", "n": None})            # the fault is gone: retry the same call
+                        if errs > 6: break
+                    else:
+                        out["failures"].append({"concrete": True, "text": f"{name}: write() answered {r.get('r')}", "replay": rep}); ok = False
+                ip.op({"op": "rlimit_fsize", "n": None})
+                out["runs"] += 1
+                out["dist"][f"{fl}: write() calls that failed (EFBIG)"] = out["dist"].get(f"{fl}: write() calls that failed (EFBIG)", 0) + errs
+                if not ok:
+                    ip.close(); continue
+                rc = ip.op({"op": "commit", "w": 1})
+                bad = content_oracle(c)
+                if bad:
+                    out["failures"].append({"concrete": True, "text": f"{name}: after commit ({rc.get('r')}) {bad[0]}", "replay": rep})
+                elif rc.get("r") == "ok" and pos == total:
+                    rd = ip.op({"op": "read", "fl": "sync", "key": K}) if keyed else ip.op({"op": "read_hash", "fl": "sync", "sri": rc.get("v")})
+                    if rd.get("r") != "ok" or rd.get("v") != acked.hex():
+                        out["failures"].append({"concrete": True, "text": f"{name}: commit reported success but reading back gives {str(rd)[:120]} instead of the {len(acked)} acknowledged bytes", "replay": rep})
+                    if keyed is False and rc.get("v") != hashes.sri("sha256", acked):
+                        out["failures"].append({"concrete": True, "text": f"{name}: the returned address is not the digest of the acknowledged bytes", "replay": rep})
+                ip.close()
+            finally:
+                shutil.rmtree(base, ignore_errors=True)
+    return out
+
 def suite_fault_listing(binf, tier, rng):
     """C10 in the states a failed call leaves behind: after every single fault of every mutating call, the listing and
     the lookups of a fresh process agree — a key is listed iff a lookup finds it, with the same fields, once."""
